@@ -1,7 +1,8 @@
 """C02 -- every defined position is encoded at, and parsed from, its own index."""
 from .. import tables, versions
 from ..src import SourceIndex
-from . import tablerules
+from . import tablerules, codelemmas
+from .. import ctx as ctxmod
 
 
 def run(chk):
@@ -14,6 +15,11 @@ def run(chk):
     tablerules.t3_refs(chk, vts)
     tablerules.t5_datatypes(chk, vts, base)
     tablerules.t7_orphans(chk, vts)
+    c = ctxmod.get()
+    codelemmas.encoder_order(chk, c, 'C02-K1')
+    codelemmas.ordinal_naming(chk, c, 'C02-K2')
+    codelemmas.open_ended(chk, c, 'C02-K3')
+    codelemmas.separators(chk, c, 'C02-K4')
     chk.exhaustive = True
     chk.assume('table modules contain only literals, cross references and the two recognised fix-up loops '
                '(checked: anything else ends the run as ANALYSIS-ERROR)')
